@@ -240,13 +240,18 @@ impl<T, Ptr: PointerFamily> MetaSlotMap<T, Ptr> {
     }
 
     unsafe fn claim_index(&mut self, idx: usize) {
-        if idx >= self.capacity_impl() {
+        // out-of-bounds keys and keys that are already in use are not part of the free list,
+        // their free list entry is stale and must not be used to patch the list
+        if idx >= self.capacity_impl() || self.idx_to_data[idx] != INVALID {
             return;
         }
 
         let entry = self.idx_to_data_free_list[idx];
         if entry.previous != INVALID {
             self.idx_to_data_free_list[entry.previous].next = entry.next;
+        } else {
+            // the claimed index is the head of the free list
+            self.idx_to_data_free_list_head = entry.next;
         }
         if entry.next != INVALID {
             self.idx_to_data_free_list[entry.next].previous = entry.previous;
@@ -290,7 +295,7 @@ impl<T, Ptr: PointerFamily> MetaSlotMap<T, Ptr> {
 
     pub(crate) unsafe fn store_value(&mut self, key: SlotMapKey, value: T) -> bool {
         self.verify_init("store()");
-        if key.0 > self.capacity_impl() {
+        if key.0 >= self.capacity_impl() {
             return false;
         }
 
@@ -311,7 +316,7 @@ impl<T, Ptr: PointerFamily> MetaSlotMap<T, Ptr> {
 
     pub(crate) unsafe fn remove_impl(&mut self, key: SlotMapKey) -> Option<T> {
         self.verify_init("remove()");
-        if key.0 > self.idx_to_data.len() {
+        if key.0 >= self.idx_to_data.len() {
             return None;
         }
 
